@@ -16,6 +16,7 @@ fn mode_byte(mode: &PublishMode) -> u8 {
 impl ServerSession {
     /// The protocol-logic part of the state (everything except the two codecs and the clock).
     pub fn verif_fingerprint_logic(&self, out: &mut Vec<u8>) {
+        #[cfg(not(feature = "verif-lax"))]
         let ServerSession {
             start_time: _,
             serializer: _,
@@ -31,6 +32,24 @@ impl ServerSession {
             peer_window_ack_size,
             bytes_received: _, // statistic nothing reads
             bytes_received_since_last_ack,
+        } = self;
+        #[cfg(feature = "verif-lax")]
+        let ServerSession {
+            start_time: _,
+            serializer: _,
+            deserializer: _,
+            connected_app_name,
+            outstanding_requests,
+            next_request_number,
+            current_state,
+            fms_version,
+            object_encoding,
+            active_streams,
+            next_stream_id,
+            peer_window_ack_size,
+            bytes_received: _, // statistic nothing reads
+            bytes_received_since_last_ack,
+            ..
         } = self;
 
         match *connected_app_name {
@@ -89,7 +108,10 @@ impl ServerSession {
         push_u32(out, keys.len() as u32);
         for key in keys {
             push_u32(out, *key);
+            #[cfg(not(feature = "verif-lax"))]
             let ActiveStream { current_state } = &active_streams[key];
+            #[cfg(feature = "verif-lax")]
+            let ActiveStream { current_state, .. } = &active_streams[key];
             match *current_state {
                 StreamState::Created => out.push(0),
                 StreamState::Publishing {
